@@ -204,8 +204,17 @@ def gen_config(rng, default_bias=0.4):
     return beta, kappa, tau
 
 
+_CYCLE = [0]
+
+
 def gen_game(rng, kind=None, stratum=None, ties=None, n=None, maxsize=8, encode=True, options=True):
-    kind = kind or rng.choice(KINDS)
+    # the model kind, the way the outcome is given and which per-call options are present are CYCLED with pairwise coprime odd periods
+    # (5, 7, 9: every combination comes round whatever the stride of the caller), not drawn: a combination such as "partial-pairing
+    # Thurstone-Mosteller x outcome omitted x per-call tau" must not be left to chance in a run of 300 games
+    cyc = _CYCLE[0]
+    _CYCLE[0] += 1
+    rng.random()                      # (keeps the stream aligned with earlier corpus seeds as far as possible)
+    kind = kind or KINDS[cyc % 5]
     stratum = stratum or rng.choice(STRATA)
     beta, kappa, tau = gen_config(rng)
     if stratum == "floor" and n is None:
@@ -231,6 +240,8 @@ def gen_game(rng, kind=None, stratum=None, ties=None, n=None, maxsize=8, encode=
         teams = gen_teams(rng, stratum, beta, n=n, maxsize=maxsize)
     n = len(teams)
     r = rng.random()
+    form = "RRSRSNR"[cyc % 7]
+    r = {"N": 0.05, "S": 0.3, "R": 0.7}[form]
     if r < 0.12:
         oc = ("N", None)
     else:
@@ -248,10 +259,12 @@ def gen_game(rng, kind=None, stratum=None, ties=None, n=None, maxsize=8, encode=
     tauopt = lsopt = None
     ls = False
     if options:
-        if rng.random() < 0.25:
+        u1, u2, u3 = rng.random(), rng.random(), rng.random()
+        osel = ("", "t", "", "l", "", "tl", "t", "", "l")[cyc % 9]
+        if "t" in osel:
             tauopt = rng.choice([0.0, tau, beta / 10, 1e-9 * beta, 0, 1, 3])     # ints too: rate(..., tau=0)
-        ls = rng.random() < 0.25
-        if rng.random() < 0.25:
+        ls = u2 < 0.25
+        if "l" in osel:
             lsopt = rng.random() < 0.5
     if stratum == "inflated-twin":
         tauopt = None
